@@ -84,7 +84,7 @@ theorem runTask_sim (henc : EncLen enc) {st st' : St} {l : Layout.State} (ts : T
   cases task with
   | globalCopy n l c => exact hrel.elim
   | instr i g =>
-    obtain ⟨hg, hpl, haddr, hlen, tpl, args, t₁, c, hsub, hnd₁, hplain, hfirst, hdeps, hfinal⟩ := hrel
+    obtain ⟨hg, hpl, haddr, hlen, tpl, args, t₁, c, hsub, hnd₁, hfirst, hdeps, hfinal⟩ := hrel
     subst hg
     obtain ⟨_, hpend⟩ := hok
     simp only [runTask, runInstrTask] at h
@@ -140,7 +140,7 @@ theorem runTask_sim (henc : EncLen enc) {st st' : St} {l : Layout.State} (ts : T
                 obtain ⟨_, hst2⟩ := hw
                 subst hst2
                 -- the retry theorem: the re-run is the fresh run over the final table
-                have hretry := assemble_retry_tables hsub hnd₁ i.st.addr tpl args hplain i.st c hfirst false
+                have hretry := assemble_retry_tables_all hsub hnd₁ i.st.addr tpl args i.st c hfirst false
                 rw [hfa] at hretry
                 have hfresh := assemble_completed_loc true hretry.symm
                 have hfin : lt.final = bytes := by
@@ -164,7 +164,7 @@ theorem runTask_sim (henc : EncLen enc) {st st' : St} {l : Layout.State} (ts : T
                 refine ⟨l', hall, by rw [haddr, hfin]; exact q1,
                   ⟨hsafe.1, q2, ts.loc, ts.nodef, by rw [q3']; exact ts.env, ts.lq, ts.gl⟩, hpend', hcurW⟩
   | data d g =>
-    obtain ⟨hg, hpl, haddr, hlen, a, t₁, n, hsub, hnd₁, hplain, hfirst, hdeps, hfinal⟩ := hrel
+    obtain ⟨hg, hpl, haddr, hlen, a, t₁, n, hsub, hnd₁, hfirst, hdeps, hfinal⟩ := hrel
     subst hg
     obtain ⟨_, hpend⟩ := hok
     simp only [runTask, runDataTask] at h
@@ -175,7 +175,7 @@ theorem runTask_sim (henc : EncLen enc) {st st' : St} {l : Layout.State} (ts : T
       rw [hap] at h
       unfold DataExpr.apply at hap
       rw [evalArg_eq henv ts.loc] at hap
-      have hretry := data_retry hsub hnd₁ hplain hfirst
+      have hretry := data_retry_all hsub hnd₁ hfirst
       obtain ⟨ev, hev⟩ := evalIn_ok t₂ d.arg
       rw [hev] at hap
       cases ev with
